@@ -18,7 +18,7 @@ import atexit; atexit.register(lambda: os.path.exists(BIN) and os.remove(BIN))
 def run_seed(seed):
     wt=tempfile.mkdtemp(prefix='wt-sweep-')
     os.rmdir(wt)
-    subprocess.run(['git','-C','/repo','worktree','add','-q','--detach',wt,'HEAD'],check=True)
+    subprocess.run(['git','-C','/repo','worktree','add','-q','--detach',wt,os.environ.get('SWEEP_REPO_REV','HEAD')],check=True)
     res={}
     try:
         r=subprocess.run(['git','-C',wt,'apply',V+'/seeded/'+seed+'/patch.diff'],capture_output=True,text=True)
